@@ -6,28 +6,32 @@
 (* history: "reset", and "start"/"stage"/"end" events of its threads; an   *)
 (* "end" event carries the digest r of the result the build produced.      *)
 (* End(t) of the specification ends a build with Alone[p]: the event is    *)
-(* explained by the specification iff r = Alone[p].                        *)
+(* explained by the specification iff r = Alone[Key(p, e)], e being the    *)
+(* working directory ("chdir" events) the process stood in at the start.   *)
 (***************************************************************************)
 EXTENDS Json, IOUtils, Integers, Sequences, FiniteSets, TLC
 Rec_ == ndJsonDeserialize(IOEnv.TRACE)
 Table == Rec_[1].table
-VARIABLES running, done, l, nbad
-A == INSTANCE Api WITH Threads <- 0..31, Programs <- DOMAIN Table, Alone <- Table
-vars == <<running, done, l, nbad>>
+VARIABLES running, done, env, l, nbad
+Progs_ == {Rec_[i].p : i \in {j \in 2..Len(Rec_) : Rec_[j].ev = "start"}}
+A == INSTANCE Api WITH Threads <- 0..31, Programs <- Progs_, Alone <- Table
+vars == <<running, done, env, l, nbad>>
 Init == A!SessInit /\ l = 2 /\ nbad = 0
 Ev(k) == l <= Len(Rec_) /\ Rec_[l].ev = k /\ l' = l + 1
-Reset == Ev("reset") /\ running' = [t \in 0..31 |-> A!IdleRec] /\ done' = << >> /\ UNCHANGED nbad
+Reset == Ev("reset") /\ running' = [t \in 0..31 |-> A!IdleRec] /\ done' = << >> /\ env' = A!NoEnv /\ UNCHANGED nbad
+TChdir == Ev("chdir") /\ A!Chdir(Rec_[l].d) /\ UNCHANGED nbad
 TStart == Ev("start") /\ A!Start(Rec_[l].t, Rec_[l].p) /\ UNCHANGED nbad
 TStage == Ev("stage") /\ A!Stage(Rec_[l].t) /\ UNCHANGED nbad
 \* the specification's End with the logged result bound to it
 Explained(e) == /\ ~A!Idle(e.t) /\ running[e.t].s = Len(A!Stages) /\ running[e.t].p = e.p
-                /\ e.r = Table[e.p]
+                /\ A!Key(e.p, running[e.t].e) \in DOMAIN Table
+                /\ e.r = Table[A!Key(e.p, running[e.t].e)]
 TEndOk == Ev("end") /\ Explained(Rec_[l]) /\ A!End(Rec_[l].t) /\ UNCHANGED nbad
 \* a logged result the specification cannot explain: reported, and the thread is released so that the rest is judged
 TEndBad == /\ Ev("end") /\ ~Explained(Rec_[l])
-           /\ PrintT(<<"REJECT", l, ToJson([expected |-> Table[Rec_[l].p]])>>)
-           /\ nbad' = nbad + 1 /\ running' = [running EXCEPT ![Rec_[l].t] = A!IdleRec] /\ UNCHANGED done
-Next == Reset \/ TStart \/ TStage \/ TEndOk \/ TEndBad
+           /\ PrintT(<<"REJECT", l, ToJson([expected |-> IF A!Key(Rec_[l].p, running[Rec_[l].t].e) \in DOMAIN Table THEN Table[A!Key(Rec_[l].p, running[Rec_[l].t].e)] ELSE "?"])>>)
+           /\ nbad' = nbad + 1 /\ running' = [running EXCEPT ![Rec_[l].t] = A!IdleRec] /\ UNCHANGED <<done, env>>
+Next == Reset \/ TChdir \/ TStart \/ TStage \/ TEndOk \/ TEndBad
 Spec == Init /\ [][Next]_vars
 AllConsumed == TLCGet("stats").diameter = Len(Rec_)
 =============================================================================
